@@ -7,7 +7,7 @@ import ast
 from ..cfg import Oracle, build_cfg
 from ..index import AnalysisError, UNKNOWN, norm, unparse
 from ..report import Ctx
-from ..util import Facts, arg, callee_attr, calls_in_node, cfg_nodes_with_call
+from ..util import Facts, arg, callee_attr, calls_in_node, cfg_nodes_with_call, xtext
 from ._chan import GB, callback_invocations, in_exception_handler_scope, receiver_context
 
 BUDGET = 15.0
@@ -98,7 +98,7 @@ def check(ctx: Ctx) -> None:
         # the waits are on the execution pool
         for w in waits:
             c = [c for c in calls_in_node(w) if callee_attr(c) == "waitall"][0]
-            if unparse(c.func.value) != "self._execpool":
+            if xtext(repo, f_term, c.func.value) != "self._execpool":
                 ob.violation(f_term, c, "the ladder waits on something else than the execution pool")
 
     with ctx.obligation("C11.c", "serve-returns") as ob:
